@@ -49,8 +49,11 @@ def reset():
     sh("git checkout -q -- . ; git clean -fdq -e target")
 
 
+FEATURES = ""
+
+
 def nextest(crates, extra=""):
-    pargs = " ".join(f"-p {c}" for c in crates)
+    pargs = " ".join(f"-p {c}" for c in crates) + FEATURES
     r = sh(f"nice -n 10 cargo nextest run {pargs} --offline --no-fail-fast --test-threads 8 {extra} 2>&1")
     txt = r.stdout
     fails = sorted(set(re.findall(r"^\s+FAIL \[[^\]]*\]\s*(?:\([^)]*\))?\s*(\S+ \S+)", txt, re.M)))
@@ -66,12 +69,16 @@ reset()
 sh(f"git checkout -q --detach {head}")
 
 for id in IDS:
+    global_features = None
     d = os.path.join(SRC, id)
     res = {"id": id, "repo_head": head}
     try:
         patch, demo = os.path.join(d, "patch.diff"), os.path.join(d, "demo.diff")
         crates = sorted(set(crates_of(patch) + crates_of(demo)))
         tests = new_tests(demo)
+        # demonstrations of storage-fault / crash / schedule defects need the feature-gated hook points
+        FEATURES = " --features verif-hooks" if "verif_hooks" in open(demo).read() or "verif-hooks" in open(demo).read() else ""
+        res["features"] = FEATURES.strip()
         res["crates"], res["demo_tests"] = crates, tests
         reset()
         if sh(f"git apply {demo}").returncode != 0:
